@@ -12,6 +12,7 @@
   Gen.Deadline).  The proof of the read rule is what exposed finding F19 (|d - current| > 0 overflowing for MinInt64).
 -/
 import OtterVerif.Proofs.TableRefine
+import OtterVerif.Proofs.TableTrace
 import OtterVerif.Gen.CacheRead
 import OtterVerif.Gen.Deadline
 import OtterVerif.Gen.Xmath
@@ -61,6 +62,26 @@ theorem c01_compute_refines (c : Cfg) (s : Spec.State) (t : Tbl) (k : Nat) (act 
     (computeStep (cfgOf c) t k act s.now).2.1 = (Spec.computeStep c s k act).2.1 ∧
     (computeStep (cfgOf c) t k act s.now).2.2 = (Spec.computeStep c s k act).2.2 :=
   computeStep_refines c s t k act hs hnow hwf hk1 hk2
+
+/-- **C01 for every history**: any sequence of Set / SetIfAbsent / Invalidate / GetIfPresent / Compute steps (with any answers
+    of the remapping function) and clock advances, run from the empty cache on the transcription of the code, returns at every
+    step the result and the atomic deletion events of the map-with-deadlines spec.  The only hypothesis about the history: the
+    clock stays within ±2^62 ns of its reference point (`ClockOk`); the induction carries the table's well-formedness -/
+theorem c01_every_history (c : Cfg) (hk1 : KindOk c.expiry) (hk2 : KindOk c.refresh) (hr : ReadOk c)
+    (ops : List Proofs.TableTrace.Op) (now0 : Int) (hclk : Proofs.TableTrace.ClockOk now0 ops) :
+    (Proofs.TableTrace.irun c { now := now0, t := [] } ops).2 = (Proofs.TableTrace.srun c { now := now0 } ops).2 :=
+  Proofs.TableTrace.history_from_empty c hk1 hk2 hr ops now0 hclk
+
+/-- ... and the states stay related: the table abstracts to the spec's map after every prefix -/
+theorem c01_history_states (c : Cfg) (hk1 : KindOk c.expiry) (hk2 : KindOk c.refresh) (hr : ReadOk c)
+    (ops : List Proofs.TableTrace.Op) (is : Proofs.TableTrace.IState) (ss : Spec.State)
+    (hm : ss.m = absT is.t) (hn : ss.now = is.now) (hok : Proofs.TableTrace.AllOk is.t) (hclk : Proofs.TableTrace.ClockOk is.now ops) :
+    (Proofs.TableTrace.srun c ss ops).1.m = absT (Proofs.TableTrace.irun c is ops).1.t :=
+  (Proofs.TableTrace.history_sim c hk1 hk2 hr ops is ss hm hn hok hclk).2
+
+/-- non-vacuity: a concrete history with an expiring write, a clock jump past the deadline and a rewrite -/
+example : Proofs.TableTrace.ClockOk 5 [.set 1 10, .advance 1000, .get 1, .setIfAbsent 1 11, .compute 1 .cancel, .invalidate 1] := by
+  unfold Proofs.TableTrace.ClockOk Proofs.TableTrace.InRange; simp [Proofs.TableTrace.ClockOk, Proofs.TableTrace.InRange]
 
 /-- C03: a lookup finds a node iff the spec's entry is live; C06: the cause is Expiration iff the deadline has passed -/
 theorem c03_visibility_and_cause (n : TNode) (now : Int) (c : Cause) :
